@@ -11,8 +11,10 @@ vars == <<t, st, calls, rets>>
 
 (* columns 1..3 may be in the header, 4 never is; cells: 0 blank, 5 and 6 values *)
 Headers == {<<1, 2>>, <<2, 1>>, <<3, 1, 2>>, <<1>>}
-RowsOf(n) == [1..n -> {0, 5, 6}]
-SmallTables == {[header |-> h, rows |-> rs] : h \in {<<1, 2>>, <<2, 1>>}, rs \in {<<>>, <<<<5, 0>>>>, <<<<0, 6>>, <<5, 5>>>>, <<<<6, 5>>, <<0, 0>>, <<5, 6>>>>}}
+(* a record whose cells are all empty is left out: every table has a required column, so such a row yields nothing, *)
+(* and whether the cursor hands it to its caller or steps over it is not something a property fixes                  *)
+RowsOf(n) == {r \in [1..n -> {0, 5, 6}] : \E k \in 1..n : r[k] # 0}
+SmallTables == {[header |-> h, rows |-> rs] : h \in {<<1, 2>>, <<2, 1>>}, rs \in {<<>>, <<<<5, 0>>>>, <<<<0, 6>>, <<5, 5>>>>, <<<<6, 5>>, <<0, 6>>, <<5, 6>>>>}}
 AllTables == UNION {{[header |-> h, rows |-> rs] : rs \in UNION {[1..k -> RowsOf(Len(h))] : k \in 0..2}} : h \in Headers}
 Tables == IF TablePool = "small" THEN SmallTables ELSE AllTables
 
